@@ -170,7 +170,7 @@ def check_real(ws, interps, case, out):
     return viols
 
 
-BAD_KINDS = ["plain", "badrepr", "badarg", "cb"]
+BAD_KINDS = ["plain", "badrepr", "badarg", "cb", "badattr"]
 
 
 def check_badchild(ws, interps, kinds, out):
